@@ -77,7 +77,7 @@ def run(rep, tier):
                "are re-computed by TLC as well; the same penalty objects are evaluated again after penalty() / in-place multiplier changes / clone()",
                "solver problems: hand-made constraint sets, no constraint at all, random convex LPs/QPs converted by nano::make_function, and planted "
                "empty feasible sets (parallel hyperplanes, ball vs. half-space; `converged` must not be reported); outer-loop parameters (epsilon0, "
-               "epsilonK in [0.05, 1], tau, gamma, miu_max, lambda clamps, eta, penalty0) drawn in their domains in half of the runs",
+               "epsilonK in (0, 1] down to 1e-12, tau, gamma, miu_max, lambda clamps, eta, penalty0) drawn in their domains in half of the runs",
                "feasibility at the returned point (|h| <= eps, max(0,g) <= eps) and bit-equality of the stored constraint values / KKT tests 1-2 "
                "are recomputed by the driver from the problem as stated")
 
